@@ -15,7 +15,7 @@ Stages
 """
 import os, struct, time, hashlib
 from .. import c03gen, c03fuzz
-from ..core import Violation
+from ..core import Violation, modules_for
 
 WORKERS = int(os.environ.get("SFVERIF_WORKERS", "16"))
 OP_TIMEOUT = 5
@@ -417,7 +417,7 @@ def run(ctx):
     known = (set(majors) | hmaj, set(subs) | hsub)   # "known" = named in include/sndfile.h (SF_FORMAT_DWVW_N &c. are not in the subtype table)
     if getattr(ctx, "replay", None):
         return replay(ctx, ctx.replay, known)
-    failed = ctx.lean_stage(["SfProps.C03"])
+    failed = ctx.lean_stage(modules_for("C03"))
     found_input = False
 
     if regression_scripts(ctx, known):
